@@ -1229,6 +1229,9 @@ func goFnExprFor(e *sqlparser.FuncExpr, fname string) (goexpr.Expr, error) {
 	}
 	vfn, found := varGoExpr[fname]
 	if found {
+		if fname == "CONCAT" && numParams == 0 {
+			return nil, fmt.Errorf("Function CONCAT requires at least 1 parameter (the delimiter)")
+		}
 		params := make([]goexpr.Expr, 0, numParams)
 		for i := 0; i < numParams; i++ {
 			param, err := paramGoExpr(e, i)
